@@ -270,3 +270,50 @@ func init() {
 			}})
 	}
 }
+
+// thread ids stay unique across a restart of the processor: a host thread keeps
+// the id it was given while the pool is stopped and started again (the console
+// does exactly that: NewThreadID, Finish, Reset / Start), so the new workers must
+// not be numbered from the beginning.
+func init() {
+	register(&Scenario{Prop: "C12", Name: "restart+sinks-2w+direct", Quick: 1, Thor: 2, FreeQuick: 1, FreeThor: 1, ThorShards: 4,
+		Desc: "a host thread takes its id, the processor is started, finished and started again, then two sink invocations on the 2 new workers and the host thread (with its old id) all enter mutex m",
+		Make: func() (func(), func(e *vsched.Exec) (string, *vsched.Violation)) {
+			var s *c12State
+			body := func() {
+				s = &c12State{en: newEnv(2)}
+				s.install()
+				src := "gm := 0\ngn := 0\n" + c12Func("f0", []string{"m"}, 0) +
+					"sink s1\n kindmatch [\"k\"],\n {\n f0()\n }\n"
+				if _, err := s.en.eval(src); err != nil {
+					vsched.Fail("setup: %v", err)
+				}
+				ast, err := s.en.parse("f0()")
+				if err != nil {
+					vsched.Fail("setup: %v", err)
+				}
+				tid := s.en.erp.NewThreadID()
+				proc := s.en.erp.Processor
+				proc.Start()
+				proc.Finish()
+				proc.Start()
+				var wg vsched.WaitGroup
+				for i := 0; i < 2; i++ {
+					i := i
+					wg.Add(1)
+					vsched.GoNamed(fmt.Sprintf("adder%d", i), func() {
+						rm := proc.NewRootMonitor(nil, nil)
+						proc.AddEventAndWait(engine.NewEvent(fmt.Sprintf("e%d", i), []string{"k"}, nil), rm)
+						wg.Done()
+					})
+				}
+				res, err := ast.Runtime.Eval(s.en.vs, make(map[string]interface{}), tid)
+				s.results = append(s.results, fmt.Sprintf("%v/%v", res, errString(err)))
+				wg.Wait()
+				vsched.Quiesce()
+				s.finish()
+				vsched.End()
+			}
+			return body, c12Check(&s, false)
+		}})
+}
